@@ -85,23 +85,36 @@ def withTagG (tag : Option String) (c : PState) (body : PState → RG) : RG :=
 
 /-! #### generated parse_trivia -/
 
+/-- one guarded attempt of the generated `parse_trivia`; the rule function appends to the
+    caller's list directly -/
+inductive TryG where
+  | matched (c : PState) (ps : List Pair)
+  | no (c : PState) (ps : List Pair)
+  | stop (r : RG)
+
+def tryTriviaG (rec : SemG) (on : Bool) (name : String) (c : PState) (ps : List Pair) : TryG :=
+  if !on then .no c ps
+  else
+    match callRuleG g rec name c.checkpoint ps with
+    | .done true c' ps' => .matched c'.ok ps'
+    | .done false c' ps' => .no c'.restore ps'
+    | r => .stop r
+
 def triviaLoopG (rec : SemG) (hasWs hasCm : Bool) : Nat → PState → List Pair → RG
   | 0, _, _ => .oof
   | k + 1, c, ps =>
-    let tryRule (on : Bool) (name : String) (c : PState) (ps : List Pair)
-        (next : PState → List Pair → RG) : RG :=
-      if !on then next c ps
-      else
-        match callRuleG g rec name c.checkpoint ps with
-        | .done true c' ps' => triviaLoopG rec hasWs hasCm k c'.ok ps'       -- `continue`
-        | .done false c' ps' => next c'.restore ps'
-        | r => r
-    tryRule hasWs "WHITESPACE" c ps fun c ps =>
-      tryRule hasCm "COMMENT" c ps fun c ps => .done true c ps               -- `break`
+    match tryTriviaG g rec hasWs "WHITESPACE" c ps with
+    | .matched c' ps' => triviaLoopG rec hasWs hasCm k c' ps'                 -- `continue`
+    | .stop r => r
+    | .no c1 ps1 =>
+      match tryTriviaG g rec hasCm "COMMENT" c1 ps1 with
+      | .matched c' ps' => triviaLoopG rec hasWs hasCm k c' ps'
+      | .stop r => r
+      | .no c2 ps2 => .done true c2 ps2                                       -- `break`
 
 /-- the module-level `parse_trivia(state, pairs)` emitted by `generate_parse_trivia` -/
 def parseTriviaG (rec : SemG) (k : Nat) (c : PState) (ps : List Pair) : RG :=
-  let hasSkip := g.defines "SKIP"
+  let hasSkip := g.fusedSkip.isSome
   let hasWs := g.defines "WHITESPACE"
   let hasCm := g.defines "COMMENT"
   if !(hasSkip || hasWs || hasCm) then .done true c ps
